@@ -29,8 +29,41 @@ template<class S> Mat<S,3,3> Rq(const Mat<S,4,1>& q){
   return R; }
 template<class S> Mat<S,3,3> skew3(const Mat<S,3,1>& v){ Mat<S,3,3> m; S z(0.0); m<<z,-v(2),v(1), v(2),z,-v(0), -v(1),v(0),z; return m; }
 
-struct SO2t { template<class S,class X> static S rotsq(const X& t){ return t.coeffs()(0)*t.coeffs()(0); } enum{A=2}; template<class S,class X> static Mat<S,A> alg(const X& t){ Mat<S,A> m=hat<S>(t).template topLeftCorner<A,A>(); return m; } static const char* nm(){return "SO2";} enum{H=3,P=2,DoF=1,Rep=2};
-  template<class S> using G=manif::SO2<S>; template<class S> using T=manif::SO2Tangent<S>;
+// Hamilton product of quaternions stored (x,y,z,w)
+template<class S> Mat<S,4,1> qmul(const Mat<S,4,1>& a, const Mat<S,4,1>& b){
+  Mat<S,4,1> r;
+  r(0)=a(3)*b(0)+a(0)*b(3)+a(1)*b(2)-a(2)*b(1);
+  r(1)=a(3)*b(1)-a(0)*b(2)+a(1)*b(3)+a(2)*b(0);
+  r(2)=a(3)*b(2)+a(0)*b(1)-a(1)*b(0)+a(2)*b(3);
+  r(3)=a(3)*b(3)-a(0)*b(0)-a(1)*b(1)-a(2)*b(2);
+  return r; }
+// first-order right perturbation q (x) (w/2, 1) of a unit quaternion by a rotation vector w (exact to first order)
+template<class J> Mat<J,4,1> qpert(const Mat<J,4,1>& q, const Mat<J,3,1>& w){ Mat<J,4,1> dq; dq<<w(0)*J(0.5),w(1)*J(0.5),w(2)*J(0.5),J(1.0); return qmul<J>(q,dq); }
+template<class J,class V> Mat<J,V::RowsAtCompileTime,1> liftv(const V& v){ Mat<J,V::RowsAtCompileTime,1> r; for(int i=0;i<v.rows();i++) r(i)=J(v(i)); return r; }
+// Generic first-order element X (+) d, built from the documented matrix group structure only:
+// M(X (+) d) = M(X) (I + hat(d)) + O(d^2); the rotation coefficients are perturbed by the quaternion / complex rule.
+template<class Tg,class J,class GS,class TD> typename Tg::template G<J> perturb(const GS& X, const TD& d){
+  typedef typename Tg::template G<J> GJ; typedef typename Tg::template T<J> TJ;
+  typename GJ::DataType c = liftv<J>(X.coeffs());
+  GJ Xl(c); TJ dj(d);
+  Mat<J,Tg::H> Mp = Tg::template M<J>(Xl) * (Mat<J,Tg::H>::Identity() + Tg::template hat<J>(dj));
+  return Tg::template fromM<J>(Xl, dj, Mp);
+}
+// concrete exact rational points (concretised arguments; every rotation part is exactly unit)
+static const long KQ[4][5] = { {1,2,2,4,5}, {2,-4,5,-6,9}, {-2,3,6,0,7}, {4,-4,1,-4,7} };   // (x,y,z,w)/den
+static const long KC[4][3] = { {3,4,5}, {-5,12,13}, {8,-15,17}, {-7,-24,25} };             // (re,im)/den
+static const long KV[4][3] = { {1,-3,5}, {-7,2,3}, {9,4,-1}, {-2,-5,6} };                    // /4
+static const long KW[4][3] = { {3,-4,5}, {-2,1,7}, {11,3,-6}, {1,2,-3} };                    // /10
+template<class R> Mat<typename R::S,4,1> cq(R& rec,int k){ Mat<typename R::S,4,1> q; for(int i=0;i<4;i++) q(i)=rec.rat(KQ[k][i],KQ[k][4]); return q; }
+template<class R> Mat<typename R::S,2,1> cc(R& rec,int k){ Mat<typename R::S,2,1> c; for(int i=0;i<2;i++) c(i)=rec.rat(KC[k][i],KC[k][2]); return c; }
+template<class R> Mat<typename R::S,3,1> cv(R& rec,int k){ Mat<typename R::S,3,1> v; for(int i=0;i<3;i++) v(i)=rec.rat(KV[k][i],4); return v; }
+template<class R> Mat<typename R::S,3,1> cw(R& rec,int k){ Mat<typename R::S,3,1> v; for(int i=0;i<3;i++) v(i)=rec.rat(KW[k][i],10); return v; }
+struct SO2t { template<class S> using G=manif::SO2<S>; template<class S> using T=manif::SO2Tangent<S>; template<class R> static G<typename R::S> makec(R& rec,int k){ typedef typename R::S S; auto c=cc(rec,k); return G<S>(c(0),c(1)); }
+  template<class R> static T<typename R::S> maketc(R& rec,int k){ typedef typename R::S S; return T<S>(rec.rat(KW[k][0],10)); }
+  template<class S,class GA,class GB,class MM> static G<S> assemble(const GA& A,const GB& B,const MM& Mp){ S re=A.coeffs()(0)*B.coeffs()(0)-A.coeffs()(1)*B.coeffs()(1), im=A.coeffs()(0)*B.coeffs()(1)+A.coeffs()(1)*B.coeffs()(0); return G<S>(re,im); }
+  template<class J,class GJ,class TJ,class MM> static GJ fromM(const GJ& X,const TJ& d,const MM& Mp){ J re=X.coeffs()(0)-X.coeffs()(1)*d.coeffs()(0), im=X.coeffs()(1)+X.coeffs()(0)*d.coeffs()(0); return GJ(re,im); }
+  template<class S,class X> static S rotsq(const X& t){ return t.coeffs()(0)*t.coeffs()(0); } enum{A=2}; template<class S,class X> static Mat<S,A> alg(const X& t){ Mat<S,A> m=hat<S>(t).template topLeftCorner<A,A>(); return m; } static const char* nm(){return "SO2";} enum{H=3,P=2,DoF=1,Rep=2};
+  
   template<class R> static G<typename R::S> make(R& rec,const std::string& p,int w){ auto c=unitc(rec,p,w); return G<typename R::S>(c(0),c(1)); }
   template<class R> static T<typename R::S> maket(R& rec,const std::string& p,int w){ return T<typename R::S>(rec.var(p+"th",WW[w][0])); }
   template<class S,class X> static Mat<S,H> M(const X& g){ S z(0.0),o(1.0); Mat<S,H> m; m<<g.coeffs()(0),-g.coeffs()(1),z, g.coeffs()(1),g.coeffs()(0),z, z,z,o; return m; }
@@ -38,48 +71,72 @@ struct SO2t { template<class S,class X> static S rotsq(const X& t){ return t.coe
   template<class S> static Mat<S,H,1> hom(const Mat<S,P,1>& p){ Mat<S,H,1> h; h<<p(0),p(1),S(1.0); return h; }
   static int nrot(){return 1;} // rotation-part kind: 1 complex, 2 quaternion, 0 none
 };
-struct SE2t { template<class S,class X> static S rotsq(const X& t){ return t.coeffs()(2)*t.coeffs()(2); } enum{A=3}; template<class S,class X> static Mat<S,A> alg(const X& t){ Mat<S,A> m=hat<S>(t).template topLeftCorner<A,A>(); return m; } static const char* nm(){return "SE2";} enum{H=3,P=2,DoF=3,Rep=4};
-  template<class S> using G=manif::SE2<S>; template<class S> using T=manif::SE2Tangent<S>;
+struct SE2t { template<class S> using G=manif::SE2<S>; template<class S> using T=manif::SE2Tangent<S>; template<class R> static G<typename R::S> makec(R& rec,int k){ typedef typename R::S S; auto c=cc(rec,k); auto v=cv(rec,k); return G<S>(v(0),v(1),c(0),c(1)); }
+  template<class R> static T<typename R::S> maketc(R& rec,int k){ typedef typename R::S S; auto v=cv(rec,k); return T<S>(v(0),v(1),rec.rat(KW[k][0],10)); }
+  template<class S,class GA,class GB,class MM> static G<S> assemble(const GA& A,const GB& B,const MM& Mp){ S re=A.coeffs()(2)*B.coeffs()(2)-A.coeffs()(3)*B.coeffs()(3), im=A.coeffs()(2)*B.coeffs()(3)+A.coeffs()(3)*B.coeffs()(2); return G<S>(Mp(0,2),Mp(1,2),re,im); }
+  template<class J,class GJ,class TJ,class MM> static GJ fromM(const GJ& X,const TJ& d,const MM& Mp){ J re=X.coeffs()(2)-X.coeffs()(3)*d.coeffs()(2), im=X.coeffs()(3)+X.coeffs()(2)*d.coeffs()(2); return GJ(Mp(0,2),Mp(1,2),re,im); }
+  template<class S,class X> static S rotsq(const X& t){ return t.coeffs()(2)*t.coeffs()(2); } enum{A=3}; template<class S,class X> static Mat<S,A> alg(const X& t){ Mat<S,A> m=hat<S>(t).template topLeftCorner<A,A>(); return m; } static const char* nm(){return "SE2";} enum{H=3,P=2,DoF=3,Rep=4};
+  
   template<class R> static G<typename R::S> make(R& rec,const std::string& p,int w){ typedef typename R::S S; S x=rec.var(p+"x",WV[w][0]),y=rec.var(p+"y",WV[w][1]); auto c=unitc(rec,p,w); return G<S>(x,y,c(0),c(1)); }
   template<class R> static T<typename R::S> maket(R& rec,const std::string& p,int w){ typedef typename R::S S; return T<S>(rec.var(p+"x",WV[w][0]),rec.var(p+"y",WV[w][1]),rec.var(p+"th",WW[w][0])); }
   template<class S,class X> static Mat<S,H> M(const X& g){ S z(0.0),o(1.0); auto&c=g.coeffs(); Mat<S,H> m; m<<c(2),-c(3),c(0), c(3),c(2),c(1), z,z,o; return m; }
   template<class S,class X> static Mat<S,H> hat(const X& t){ S z(0.0); auto&c=t.coeffs(); Mat<S,H> m; m<<z,-c(2),c(0), c(2),z,c(1), z,z,z; return m; }
   template<class S> static Mat<S,H,1> hom(const Mat<S,P,1>& p){ Mat<S,H,1> h; h<<p(0),p(1),S(1.0); return h; }
 };
-struct SO3t { template<class S,class X> static S rotsq(const X& t){ return t.coeffs().squaredNorm(); } enum{A=3}; template<class S,class X> static Mat<S,A> alg(const X& t){ Mat<S,A> m=hat<S>(t).template topLeftCorner<A,A>(); return m; } static const char* nm(){return "SO3";} enum{H=4,P=3,DoF=3,Rep=4};
-  template<class S> using G=manif::SO3<S>; template<class S> using T=manif::SO3Tangent<S>;
+struct SO3t { template<class S> using G=manif::SO3<S>; template<class S> using T=manif::SO3Tangent<S>; template<class R> static G<typename R::S> makec(R& rec,int k){ typedef typename R::S S; Mat<S,4,1> q=cq(rec,k); return G<S>(q); }
+  template<class R> static T<typename R::S> maketc(R& rec,int k){ typedef typename R::S S; Mat<S,3,1> w=cw(rec,k); return T<S>(w); }
+  template<class S,class GA,class GB,class MM> static G<S> assemble(const GA& A,const GB& B,const MM& Mp){ Mat<S,4,1> qa=A.coeffs(), qb=B.coeffs(); Mat<S,4,1> c=qmul<S>(qa,qb); return G<S>(c); }
+  template<class J,class GJ,class TJ,class MM> static GJ fromM(const GJ& X,const TJ& d,const MM& Mp){ Mat<J,4,1> q=X.coeffs(); Mat<J,3,1> w=d.coeffs(); Mat<J,4,1> c=qpert<J>(q,w); return GJ(c); }
+  template<class S,class X> static S rotsq(const X& t){ return t.coeffs().squaredNorm(); } enum{A=3}; template<class S,class X> static Mat<S,A> alg(const X& t){ Mat<S,A> m=hat<S>(t).template topLeftCorner<A,A>(); return m; } static const char* nm(){return "SO3";} enum{H=4,P=3,DoF=3,Rep=4};
+  
   template<class R> static G<typename R::S> make(R& rec,const std::string& p,int w){ typedef typename R::S S; Mat<S,4,1> q=unitq(rec,p,w); return G<S>(q); }
   template<class R> static T<typename R::S> maket(R& rec,const std::string& p,int w){ typedef typename R::S S; Mat<S,3,1> v=vec3(rec,p+"w",WW[w]); return T<S>(v); }
   template<class S,class X> static Mat<S,H> M(const X& g){ Mat<S,H> m=Mat<S,H>::Identity(); Mat<S,4,1> q=g.coeffs(); m.template topLeftCorner<3,3>()=Rq<S>(q); return m; }
   template<class S,class X> static Mat<S,H> hat(const X& t){ Mat<S,H> m=Mat<S,H>::Zero(); Mat<S,3,1> w=t.coeffs(); m.template topLeftCorner<3,3>()=skew3<S>(w); return m; }
   template<class S> static Mat<S,H,1> hom(const Mat<S,P,1>& p){ Mat<S,H,1> h; h<<p(0),p(1),p(2),S(1.0); return h; }
 };
-struct SE3t { template<class S,class X> static S rotsq(const X& t){ return t.coeffs().template tail<3>().squaredNorm(); } enum{A=4}; template<class S,class X> static Mat<S,A> alg(const X& t){ Mat<S,A> m=hat<S>(t).template topLeftCorner<A,A>(); return m; } static const char* nm(){return "SE3";} enum{H=4,P=3,DoF=6,Rep=7};
-  template<class S> using G=manif::SE3<S>; template<class S> using T=manif::SE3Tangent<S>;
+struct SE3t { template<class S> using G=manif::SE3<S>; template<class S> using T=manif::SE3Tangent<S>; template<class R> static G<typename R::S> makec(R& rec,int k){ typedef typename R::S S; Mat<S,7,1> c; c.template head<3>()=cv(rec,k); c.template tail<4>()=cq(rec,k); return G<S>(c); }
+  template<class R> static T<typename R::S> maketc(R& rec,int k){ typedef typename R::S S; Mat<S,6,1> c; c.template head<3>()=cv(rec,k); c.template tail<3>()=cw(rec,k); return T<S>(c); }
+  template<class S,class GA,class GB,class MM> static G<S> assemble(const GA& A,const GB& B,const MM& Mp){ Mat<S,4,1> qa=A.coeffs().template segment<4>(3), qb=B.coeffs().template segment<4>(3); Mat<S,7,1> c; c.template head<3>()=Mp.template block<3,1>(0,3); c.template tail<4>()=qmul<S>(qa,qb); return G<S>(c); }
+  template<class J,class GJ,class TJ,class MM> static GJ fromM(const GJ& X,const TJ& d,const MM& Mp){ Mat<J,4,1> q=X.coeffs().template segment<4>(3); Mat<J,3,1> w=d.coeffs().template tail<3>(); Mat<J,7,1> c; c.template head<3>()=Mp.template block<3,1>(0,3); c.template tail<4>()=qpert<J>(q,w); return GJ(c); }
+  template<class S,class X> static S rotsq(const X& t){ return t.coeffs().template tail<3>().squaredNorm(); } enum{A=4}; template<class S,class X> static Mat<S,A> alg(const X& t){ Mat<S,A> m=hat<S>(t).template topLeftCorner<A,A>(); return m; } static const char* nm(){return "SE3";} enum{H=4,P=3,DoF=6,Rep=7};
+  
   template<class R> static G<typename R::S> make(R& rec,const std::string& p,int w){ typedef typename R::S S; Mat<S,7,1> c; c.template head<3>()=vec3(rec,p,WV[w]); c.template tail<4>()=unitq(rec,p,w); return G<S>(c); }
   template<class R> static T<typename R::S> maket(R& rec,const std::string& p,int w){ typedef typename R::S S; Mat<S,6,1> c; c.template head<3>()=vec3(rec,p+"v",WV[w]); c.template tail<3>()=vec3(rec,p+"w",WW[w]); return T<S>(c); }
   template<class S,class X> static Mat<S,H> M(const X& g){ Mat<S,H> m=Mat<S,H>::Identity(); auto&c=g.coeffs(); Mat<S,4,1> q=c.template segment<4>(3); m.template topLeftCorner<3,3>()=Rq<S>(q); m.template topRightCorner<3,1>()=c.template head<3>(); return m; }
   template<class S,class X> static Mat<S,H> hat(const X& t){ Mat<S,H> m=Mat<S,H>::Zero(); auto&c=t.coeffs(); Mat<S,3,1> w=c.template tail<3>(); m.template topLeftCorner<3,3>()=skew3<S>(w); m.template topRightCorner<3,1>()=c.template head<3>(); return m; }
   template<class S> static Mat<S,H,1> hom(const Mat<S,P,1>& p){ Mat<S,H,1> h; h<<p(0),p(1),p(2),S(1.0); return h; }
 };
-struct SE23t { template<class S,class X> static S rotsq(const X& t){ return t.coeffs().template segment<3>(3).squaredNorm(); } enum{A=5}; template<class S,class X> static Mat<S,A> alg(const X& t){ Mat<S,A> m=hat<S>(t).template topLeftCorner<A,A>(); return m; } static const char* nm(){return "SE_2_3";} enum{H=5,P=3,DoF=9,Rep=10};
-  template<class S> using G=manif::SE_2_3<S>; template<class S> using T=manif::SE_2_3Tangent<S>;
+struct SE23t { template<class S> using G=manif::SE_2_3<S>; template<class S> using T=manif::SE_2_3Tangent<S>; template<class R> static G<typename R::S> makec(R& rec,int k){ typedef typename R::S S; Mat<S,10,1> c; c.template head<3>()=cv(rec,k); c.template segment<4>(3)=cq(rec,k); c.template tail<3>()=cv(rec,(k+1)%4); return G<S>(c); }
+  template<class R> static T<typename R::S> maketc(R& rec,int k){ typedef typename R::S S; Mat<S,9,1> c; c.template head<3>()=cv(rec,k); c.template segment<3>(3)=cw(rec,k); c.template tail<3>()=cv(rec,(k+2)%4); return T<S>(c); }
+  template<class S,class GA,class GB,class MM> static G<S> assemble(const GA& A,const GB& B,const MM& Mp){ Mat<S,4,1> qa=A.coeffs().template segment<4>(3), qb=B.coeffs().template segment<4>(3); Mat<S,10,1> c; c.template head<3>()=Mp.template block<3,1>(0,3); c.template segment<4>(3)=qmul<S>(qa,qb); c.template tail<3>()=Mp.template block<3,1>(0,4); return G<S>(c); }
+  template<class J,class GJ,class TJ,class MM> static GJ fromM(const GJ& X,const TJ& d,const MM& Mp){ Mat<J,4,1> q=X.coeffs().template segment<4>(3); Mat<J,3,1> w=d.coeffs().template segment<3>(3); Mat<J,10,1> c; c.template head<3>()=Mp.template block<3,1>(0,3); c.template segment<4>(3)=qpert<J>(q,w); c.template tail<3>()=Mp.template block<3,1>(0,4); return GJ(c); }
+  template<class S,class X> static S rotsq(const X& t){ return t.coeffs().template segment<3>(3).squaredNorm(); } enum{A=5}; template<class S,class X> static Mat<S,A> alg(const X& t){ Mat<S,A> m=hat<S>(t).template topLeftCorner<A,A>(); return m; } static const char* nm(){return "SE_2_3";} enum{H=5,P=3,DoF=9,Rep=10};
+  
   template<class R> static G<typename R::S> make(R& rec,const std::string& p,int w){ typedef typename R::S S; Mat<S,10,1> c; c.template head<3>()=vec3(rec,p,WV[w]); c.template segment<4>(3)=unitq(rec,p,w); c.template tail<3>()=vec3(rec,p+"v",WV[(w+1)%4]); return G<S>(c); }
   template<class R> static T<typename R::S> maket(R& rec,const std::string& p,int w){ typedef typename R::S S; Mat<S,9,1> c; c.template head<3>()=vec3(rec,p+"v",WV[w]); c.template segment<3>(3)=vec3(rec,p+"w",WW[w]); c.template tail<3>()=vec3(rec,p+"a",WV[(w+2)%4]); return T<S>(c); }
   template<class S,class X> static Mat<S,H> M(const X& g){ Mat<S,H> m=Mat<S,H>::Identity(); auto&c=g.coeffs(); Mat<S,4,1> q=c.template segment<4>(3); m.template topLeftCorner<3,3>()=Rq<S>(q); m.template block<3,1>(0,3)=c.template head<3>(); m.template block<3,1>(0,4)=c.template tail<3>(); return m; }
   template<class S,class X> static Mat<S,H> hat(const X& t){ Mat<S,H> m=Mat<S,H>::Zero(); auto&c=t.coeffs(); Mat<S,3,1> w=c.template segment<3>(3); m.template topLeftCorner<3,3>()=skew3<S>(w); m.template block<3,1>(0,3)=c.template head<3>(); m.template block<3,1>(0,4)=c.template tail<3>(); return m; }
   template<class S> static Mat<S,H,1> hom(const Mat<S,P,1>& p){ Mat<S,H,1> h; h<<p(0),p(1),p(2),S(1.0),S(0.0); return h; }
 };
-struct SGal3t { template<class S,class X> static S rotsq(const X& t){ return t.coeffs().template segment<3>(6).squaredNorm(); } enum{A=5}; template<class S,class X> static Mat<S,A> alg(const X& t){ Mat<S,A> m=hat<S>(t).template topLeftCorner<A,A>(); return m; } static const char* nm(){return "SGal3";} enum{H=5,P=3,DoF=10,Rep=11};
-  template<class S> using G=manif::SGal3<S>; template<class S> using T=manif::SGal3Tangent<S>;
+struct SGal3t { template<class S> using G=manif::SGal3<S>; template<class S> using T=manif::SGal3Tangent<S>; template<class R> static G<typename R::S> makec(R& rec,int k){ typedef typename R::S S; Mat<S,11,1> c; c.template head<3>()=cv(rec,k); c.template segment<4>(3)=cq(rec,k); c.template segment<3>(7)=cv(rec,(k+1)%4); c(10)=rec.rat(3+2*k,4); return G<S>(c); }
+  template<class R> static T<typename R::S> maketc(R& rec,int k){ typedef typename R::S S; Mat<S,10,1> c; c.template head<3>()=cv(rec,k); c.template segment<3>(3)=cv(rec,(k+2)%4); c.template segment<3>(6)=cw(rec,k); c(9)=rec.rat(3-k,4); return T<S>(c); }
+  template<class S,class GA,class GB,class MM> static G<S> assemble(const GA& A,const GB& B,const MM& Mp){ Mat<S,4,1> qa=A.coeffs().template segment<4>(3), qb=B.coeffs().template segment<4>(3); Mat<S,11,1> c; c.template head<3>()=Mp.template block<3,1>(0,4); c.template segment<4>(3)=qmul<S>(qa,qb); c.template segment<3>(7)=Mp.template block<3,1>(0,3); c(10)=Mp(3,4); return G<S>(c); }
+  template<class J,class GJ,class TJ,class MM> static GJ fromM(const GJ& X,const TJ& d,const MM& Mp){ Mat<J,4,1> q=X.coeffs().template segment<4>(3); Mat<J,3,1> w=d.coeffs().template segment<3>(6); Mat<J,11,1> c; c.template head<3>()=Mp.template block<3,1>(0,4); c.template segment<4>(3)=qpert<J>(q,w); c.template segment<3>(7)=Mp.template block<3,1>(0,3); c(10)=Mp(3,4); return GJ(c); }
+  template<class S,class X> static S rotsq(const X& t){ return t.coeffs().template segment<3>(6).squaredNorm(); } enum{A=5}; template<class S,class X> static Mat<S,A> alg(const X& t){ Mat<S,A> m=hat<S>(t).template topLeftCorner<A,A>(); return m; } static const char* nm(){return "SGal3";} enum{H=5,P=3,DoF=10,Rep=11};
+  
   template<class R> static G<typename R::S> make(R& rec,const std::string& p,int w){ typedef typename R::S S; Mat<S,11,1> c; c.template head<3>()=vec3(rec,p,WV[w]); c.template segment<4>(3)=unitq(rec,p,w); c.template segment<3>(7)=vec3(rec,p+"v",WV[(w+1)%4]); c(10)=rec.var(p+"t",0.7+0.4*w); return G<S>(c); }
   template<class R> static T<typename R::S> maket(R& rec,const std::string& p,int w){ typedef typename R::S S; Mat<S,10,1> c; c.template head<3>()=vec3(rec,p+"p",WV[w]); c.template segment<3>(3)=vec3(rec,p+"v",WV[(w+2)%4]); c.template segment<3>(6)=vec3(rec,p+"w",WW[w]); c(9)=rec.var(p+"s",0.7-0.3*w); return T<S>(c); }
   template<class S,class X> static Mat<S,H> M(const X& g){ Mat<S,H> m=Mat<S,H>::Identity(); auto&c=g.coeffs(); Mat<S,4,1> q=c.template segment<4>(3); m.template topLeftCorner<3,3>()=Rq<S>(q); m.template block<3,1>(0,3)=c.template segment<3>(7); m.template block<3,1>(0,4)=c.template head<3>(); m(3,4)=c(10); return m; }
   template<class S,class X> static Mat<S,H> hat(const X& t){ Mat<S,H> m=Mat<S,H>::Zero(); auto&c=t.coeffs(); Mat<S,3,1> w=c.template segment<3>(6); m.template topLeftCorner<3,3>()=skew3<S>(w); m.template block<3,1>(0,3)=c.template segment<3>(3); m.template block<3,1>(0,4)=c.template head<3>(); m(3,4)=c(9); return m; }
   template<class S> static Mat<S,H,1> hom(const Mat<S,P,1>& p){ Mat<S,H,1> h; h<<p(0),p(1),p(2),S(0.0),S(1.0); return h; }
 };
-template<int N> struct Rnt { template<class S,class X> static S rotsq(const X&){ return S(0.0); } enum{A=N+1}; template<class S,class X> static Mat<S,A> alg(const X& t){ return hat<S>(t); } static const char* nm(){ static std::string s="R"+std::to_string(N); return s.c_str(); } enum{H=N+1,P=N,DoF=N,Rep=N};
-  template<class S> using G=manif::Rn<S,N>; template<class S> using T=manif::RnTangent<S,N>;
+template<int N> struct Rnt { template<class S> using G=manif::Rn<S,N>; template<class S> using T=manif::RnTangent<S,N>; template<class R> static G<typename R::S> makec(R& rec,int k){ typedef typename R::S S; Mat<S,N,1> c; for(int i=0;i<N;i++) c(i)=rec.rat(KV[k][i%3]+i,4); return G<S>(c); }
+  template<class R> static T<typename R::S> maketc(R& rec,int k){ typedef typename R::S S; Mat<S,N,1> c; for(int i=0;i<N;i++) c(i)=rec.rat(KW[k][i%3]-i,10); return T<S>(c); }
+  template<class S,class GA,class GB,class MM> static G<S> assemble(const GA& A,const GB& B,const MM& Mp){ Mat<S,N,1> c; for(int i=0;i<N;i++) c(i)=Mp(i,N); return G<S>(c); }
+  template<class J,class GJ,class TJ,class MM> static GJ fromM(const GJ& X,const TJ& d,const MM& Mp){ Mat<J,N,1> c; for(int i=0;i<N;i++) c(i)=Mp(i,N); return GJ(c); }
+  template<class S,class X> static S rotsq(const X&){ return S(0.0); } enum{A=N+1}; template<class S,class X> static Mat<S,A> alg(const X& t){ return hat<S>(t); } static const char* nm(){ static std::string s="R"+std::to_string(N); return s.c_str(); } enum{H=N+1,P=N,DoF=N,Rep=N};
+  
   template<class R> static G<typename R::S> make(R& rec,const std::string& p,int w){ typedef typename R::S S; Mat<S,N,1> c; for(int i=0;i<N;i++) c(i)=rec.var(p+"x"+std::to_string(i),WV[w][i%3]+0.125*i); return G<S>(c); }
   template<class R> static T<typename R::S> maket(R& rec,const std::string& p,int w){ typedef typename R::S S; Mat<S,N,1> c; for(int i=0;i<N;i++) c(i)=rec.var(p+"t"+std::to_string(i),WW[w][i%3]-0.25*i); return T<S>(c); }
   template<class S,class X> static Mat<S,H> M(const X& g){ Mat<S,H> m=Mat<S,H>::Identity(); for(int i=0;i<N;i++) m(i,N)=g.coeffs()(i); return m; }
@@ -89,6 +146,13 @@ template<int N> struct Rnt { template<class S,class X> static S rotsq(const X&){
 typedef Rnt<1> R1t; typedef Rnt<3> R3t; typedef Rnt<5> R5t;
 
 template<class R,int N> Mat<typename R::S,N,1> vecn(R& rec,const std::string& p,int w){ Mat<typename R::S,N,1> v; for(int i=0;i<N;i++) v(i)=rec.var(p+std::to_string(i), WV[w][i%3]*(1+i/3)); return v; }
+// Harness-side composition A*B written from the documented matrix-group structure only (quaternion / complex
+// product for the rotation coefficients, matrix product for the rest). Used to re-parametrise arguments.
+template<class Tg,class S,class GA,class GB> typename Tg::template G<S> hcompose(const GA& A,const GB& B){
+  typedef typename Tg::template G<S> G; typedef typename Tg::template T<S> T;
+  Mat<S,Tg::H> Mp=Tg::template M<S>(A)*Tg::template M<S>(B);
+  return Tg::template assemble<S>(A,B,Mp);
+}
 // hypothesis: rotation magnitude of a tangent below pi (injectivity radius / the property's stated domain)
 template<class Tg,class R,class T> void assume_rot_below_pi(R& rec, const T& t){ typedef typename R::S S; S r=Tg::template rotsq<S>(t); if(!(Tg::DoF==Tg::P && Tg::H==Tg::P+1 && Tg::Rep==Tg::P)) rec.assume(r, 0, S(9.869604)); } // 9.869604 < pi^2
 } // namespace gx
